@@ -19,7 +19,7 @@ type Shared struct {
 // resolvers, including answers that parse into objects and lists (which makes
 // reads run normalization and spawn lexer goroutines).
 func NewShared(r *sim.R) *Shared {
-	e := &E{R: r, Prop: r.Prop}
+	e := &E{R: r, Prop: r.Prop, sep: "."}
 	e.Setup()
 	t := r.T
 	// a few settings that go through the per-task resolvers
